@@ -187,6 +187,9 @@ func (sv *c18Server) serve(r *vf.Rand, rs *c18Resp, out chan<- c18Result, releas
 		}
 	}
 	<-release // keep the connection open until the client has read what it should
+	if tc, ok := conn.(*net.TCPConn); ok {
+		_ = tc.SetLinger(0) // RST: no TIME_WAIT on either end (thorough runs open > 100k connections)
+	}
 }
 
 func c18Script(r *vf.Rand) *c18Resp {
